@@ -230,4 +230,4 @@ def search_C04(res):
 
 NOTES["C20"] = ["the Lean theorems are about the regenerated syntactic effect table (which struct fields are assigned where) and an abstract footprint semantics; absence of data races in the compiled program additionally rests on the soundness of that extraction and on the race detector's sampling of schedules (supporting test, not a proof)"]
 NOTES["C15"] = ["parsers are modelled by a regex engine over the regenerated pattern fragments; the round-trip oracle is evaluated on the implementation; theorems cover the classes named in Props/C15.lean"]
-NOTES["C13"] = ["the counting clause (normal-form monomials = common zeros) is checked by the correspondence run only and is labelled a test"]
+NOTES["C13"] = ["the counting clause (normal-form monomials = common zeros) is a theorem (Props/C13Count.lean); the correspondence run additionally compares the two counts on implementation outputs"]
